@@ -198,10 +198,7 @@ func mkFrame(typ uint8, body []byte) []byte {
 
 // a valid OPEN body for (as, hold, id) with the 4-octet-AS capability
 func mkOpenBody(as uint32, hold uint16, id uint32) []byte {
-	as2 := uint16(23456)
-	if as <= 65535 {
-		as2 = uint16(as)
-	}
+	as2 := verifIteU16(as <= 65535, uint16(as), 23456)
 	return []byte{4, byte(as2 >> 8), byte(as2), byte(hold >> 8), byte(hold), byte(id >> 24), byte(id >> 16), byte(id >> 8), byte(id),
 		8, 2, 6, CAP_FOUR_OCTET_AS, 4, byte(as >> 24), byte(as >> 16), byte(as >> 8), byte(as)}
 }
@@ -350,18 +347,33 @@ func fsmInOpenSent(p *peer, conn net.Conn) *fsm {
 	return f
 }
 
-// fsmNegotiated: an FSM as openSent() leaves it after accepting an OPEN with the given remote hold time.
+// fsmNegotiated: an FSM in the state the REAL openSent() leaves it in after accepting a valid
+// OPEN with the given remote hold time and identifier (the OPEN is fed through the real reader;
+// the KEEPALIVE reply and the OnOpenMessage record are cleared so harnesses start from a clean log).
 func fsmNegotiated(p *peer, conn net.Conn, remoteHold uint16, remoteID uint32) *fsm {
+	c := conn.(*symConn)
+	body := mkOpenBody(p.config.RemoteAS, remoteHold, remoteID)
+	hdr := mkFrame(openMessageType, nil)
+	n := 19 + len(body)
+	hdr[16], hdr[17] = byte(n>>8), byte(n)
+	pre := [][]byte{hdr, body}
+	rest := c.chunks
+	wasAvail := c.avail
+	c.chunks = append(pre, rest...)
+	c.avail = 2
+	wasFinal := c.final
+	c.final = false
+	verifAssume(verifAnd(remoteID>>24 < 224, verifNot(verifAnd(p.config.LocalAS == p.config.RemoteAS, p.id == remoteID))))
 	f := fsmInOpenSent(p, conn)
-	f.remoteID = remoteID
-	f.holdTime = time.Duration(remoteHold) * time.Second
-	if p.options.holdTime < f.holdTime {
-		f.holdTime = p.options.holdTime
+	to, err := f.openSent()
+	if to != openConfirmState || err != nil {
+		verifUnsupported("setup: the real openSent() did not accept the setup OPEN")
 	}
-	if f.holdTime != 0 {
-		f.keepAliveInterval = f.holdTime / 3
-		f.keepAliveTimer = time.NewTimer(f.keepAliveInterval)
-		f.drainAndResetHoldTimer()
+	c.writes = nil
+	if mp, ok := p.plugin.(*monPlugin); ok {
+		mp.nOpen, mp.events = 0, nil
 	}
+	c.pos = 0
+	c.deliver(wasAvail+2, wasFinal)
 	return f
 }
